@@ -224,11 +224,20 @@ class Ctx:
         if not os.path.exists(gosum) or os.path.getmtime(gosum) < os.path.getmtime(os.path.join(REPO, "go.sum")):
             shutil.copy(os.path.join(REPO, "go.sum"), gosum)
         t = time.time()
-        try:
-            p = subprocess.run(cmd, cwd=HARNESS, env=e, stdout=subprocess.PIPE, stderr=subprocess.STDOUT,
-                               timeout=timeout + 120, text=True, errors="replace")
-        except subprocess.TimeoutExpired:
-            raise Infra("go test timeout: %s" % " ".join(cmd))
+        for attempt in range(3):
+            try:
+                p = subprocess.run(cmd, cwd=HARNESS, env=e, stdout=subprocess.PIPE, stderr=subprocess.STDOUT,
+                                   timeout=timeout + 120, text=True, errors="replace")
+            except subprocess.TimeoutExpired:
+                raise Infra("go test timeout: %s" % " ".join(cmd))
+            # a crash inside the Go runtime's own timer code under synctest (seen once in ~100 runs with go1.26.8,
+            # SIGSEGV in runtime.(*timer).maybeRunChan) is a toolchain fault, not a verdict: run again
+            if p.returncode != 0 and "SIGSEGV: segmentation violation" in p.stdout and "runtime.(*timer)" in p.stdout:
+                self.log("go runtime crashed inside its timer code (toolchain fault); retrying (%d)" % (attempt + 1))
+                for fn in os.listdir(out):
+                    os.remove(os.path.join(out, fn))
+                continue
+            break
         with open(os.path.join(out, "gotest.out"), "w") as f:
             f.write(p.stdout)
         self.log("go test %s %s rc=%d %.1fs" % (pkg, run or "", p.returncode, time.time() - t))
